@@ -1,6 +1,6 @@
 // C12 harness: hexsim::Processor constructed in deliberately dirty storage.
 //   h_sim cases <in> <out>
-// fields: file (image), input, fill (0..255 byte pattern, or 256 = PRNG), fillseed, maxcycles (0 = none), trace (0/1)
+// fields: file (image), input, fin<k> (contents of simin<k>), fill (0..255 byte pattern, or 256 = PRNG), fillseed, maxcycles (0 = none), trace (0/1)
 // The Processor is placement-constructed in a buffer pre-filled with the pattern and run in
 // lock-step with the reference model, whose memory is zero outside the image as in hexb.pdf.
 #include <cstdio>
@@ -31,7 +31,12 @@ struct RbwMonitor : refisa::Monitor {
 std::string simCase(const vio::Case &c) {
   vio::Json j;
   { std::ofstream f("s.bin", std::ios::binary); f << c.str("file"); }
-  for (int k = 0; k < 8; k++) unlink(("simout" + std::to_string(k)).c_str());
+  for (int k = 0; k < 8; k++) {
+    unlink(("simout" + std::to_string(k)).c_str());
+    unlink(("simin" + std::to_string(k)).c_str());
+    std::string key = "fin" + std::to_string(k);
+    if (c.has(key.c_str())) { std::ofstream f("simin" + std::to_string(k), std::ios::binary); f << c.str(key.c_str()); }
+  }
   size_t sz = sizeof(hexsim::Processor);
   unsigned char *buf = (unsigned char *)aligned_alloc(64, (sz + 63) & ~(size_t)63);
   long fill = c.num("fill", 0);
@@ -46,6 +51,10 @@ std::string simCase(const vio::Case &c) {
   refisa::Machine ref; refisa::World world; RbwMonitor mon;
   ref.world = &world; ref.mon = &mon;
   world.consoleIn = c.str("input");
+  for (int k = 0; k < 8; k++) {
+    std::string key = "fin" + std::to_string(k);
+    if (c.has(key.c_str())) { world.fileIn[k] = c.str(key.c_str()); world.fileInPresent[k] = true; }
+  }
   long words = ref.loadImage(c.str("file"));
   mon.imageWords = words > 0 ? (uint32_t)words : 0;
   std::string ended, mismatch;
